@@ -512,7 +512,8 @@ def check(repo: Repo, run: Run) -> None:
         # a helper of the package that was interpreted in place (its result is not an opaque call) adds nothing of its
         # own: the operations inside it are recorded, and judged, as the caller's
         inlined = f.op == "func" and c.result is not None and not (c.result.op == "call" and c.result.a[0] == f)
-        ok = nm in allowed_calls or nm.endswith("kevent.Kevent") or nm in ("tuple", "list", "int", "bytes") or inlined
+        is_nt = f.op == "global" and f.a[0].startswith("pykdebugparser.") and interp.namedtuple_fields(f.a[0]) is not None
+        ok = nm in allowed_calls or nm.endswith("kevent.Kevent") or nm in ("tuple", "list", "int", "bytes") or inlined or is_nt
         if not ok and c.func.op in ("attr", "global", "builtin"):
             # an operation this rule has no totality fact about: undecided (reported only if nothing else is wrong)
             undecided.append(f"from_kd_buf calls {nm}: not one of the decoding operations known to be total")
